@@ -158,6 +158,40 @@ CLAIMED = {
        "propext/Classical.choice/Quot.sound; XV.Spec.XInclude as transcribed; translator; harness, generator and XML renderer.",
   technique="Lean 4 proof over a code-shaped model + Spec-judged model/implementation correspondence on generated file maps",
   ref="4/C20"),
+ "C18": dict(
+  text="Lean 4 theorems, unbounded: (1) the streaming ledger monitor over alloc/free traces accepts exactly the traces in which every "
+       "release matches one earlier live allocation of the SAME manager and nothing is live at the end (monitor_iff, address re-use "
+       "handled), and when it rejects it reports the first breach with the right kind - foreign pointer, double free, wrong manager, "
+       "block handed out twice, leak with the leaked ids (monitor_first_violation); (2) XMLPlatformUtils::Initialize/Terminate as a "
+       "code-shaped counter machine: every balanced nesting returns to the initial state, the manager is deleted iff the library "
+       "created it, nested calls only move the counter, extra Terminate is harmless (LONG_MAX saturation included); (3) "
+       "DOMDocumentImpl::allocate/release/setMemoryAllocationBlockSize arena: live sub-allocations are pairwise disjoint and inside owned "
+       "blocks under exactly `alignDown(maxSub)=0 or alignDown(maxSub)+header <= initial` (necessity proved; constants and the statement "
+       "skeleton of allocate() regenerated from the sources each run). Tie: recording MemoryManagers around SAXParser / SAX2XMLReader / "
+       "XercesDOMParser / DOMLSParser / grammar pool / global manager for generated documents x every ending (completion, fatal error, "
+       "handler exception at EVERY callback k, progressive parse abandoned at every step, adopt/release/reuse orders); every recorded "
+       "trace is judged by the verified monitor; Initialize/Terminate sequences and arena histories compared with the models and judged "
+       "by independent Specs; LeakSanitizer for allocations that bypass the managers.",
+  note="PARTIAL: that the C++ parsers emit disciplined traces is EXPLORED, not proved (verified oracle over recorded runs; the "
+       "Janitor/catch structure is not modelled). Arena arithmetic in Nat (no 64-bit wrap); XMemory header model not tied by the translator. "
+       "Trusted: Lean kernel + propext/Classical.choice/Quot.sound; XV.Spec.Ledger, XV.Spec.Arena; harness recording managers and trace "
+       "printer; Python lifecycle oracle; translator (DomHeap).",
+  technique="Lean 4 proof (trace monitor = declarative discipline; counter machine; arena invariant) + recorded-run exploration judged by the proved monitor + model/implementation correspondence",
+  ref="4/C18"),
+ "C13": dict(
+  text="Lean 4 theorems over an executable reference DOM (store of node records; 29 DOM Core operation kinds with the legality checks "
+       "in the order of the C++; hierarchy table regenerated from DOMDocumentImpl::isKidOK each run): every operation with arbitrary "
+       "operands preserves well-formedness (single parent, consistent child/parent links, duplicate-free child lists, acyclic, uniform "
+       "ownerDocument, sorted back-linked attribute maps) for all stores and histories of any length; raising operations change nothing; "
+       "insertBefore succeeds iff DOM Core permits it; CharacterData arithmetic exact. Tied to the code by exhaustive (<=2 / <=3 ops over "
+       "a 5-node universe) and random (200 / 1000 ops) histories executed on the real DOM with a full structural dump through public "
+       "getters after every operation; a model-independent DOM Core judge checks WF, forbidden-op-must-raise, exception-changes-nothing, "
+       "CharacterData, tree-surgery and normalize semantics directly on the implementation's dumps.",
+  note="Not modelled: DocumentType/Entity/Notation, NS methods, user data, release(), Document.cloneNode, code-shaped sibling-pointer layer "
+       "(checked dynamically only: three child enumerations must agree). isXMLName is ASCII-only in the model. Trusted: Lean kernel + 3 axioms, "
+       "Spec/Dom.lean, the Python judge, translator, harness/generators.",
+  technique="Lean 4 proof over reference model + translator-generated table + model/implementation correspondence with spec judge",
+  ref="4/C13"),
 }
 
 def main():
